@@ -11,7 +11,6 @@ import (
 	"github.com/unixpickle/model3d/model3d"
 	"github.com/unixpickle/model3d/numerical"
 	"pgregory.net/rapid"
-	"verifharness/gen"
 	"verifharness/kit"
 )
 
@@ -26,7 +25,7 @@ type matCase struct {
 	R    []float64 `json:"r"`
 	Sym  bool      `json:"sym,omitempty"`
 	Tie  string    `json:"tie,omitempty"` // how S was drawn (label only)
-	W    []float64 `json:"w"`            // a probe vector / probe abscissae in [-4, 4]
+	W    []float64 `json:"w"`             // a probe vector / probe abscissae in [-4, 4]
 	// Focus restricts the SVD check to one group of oracle clauses ("sorted": S diagonal, non-negative,
 	// descending; "reconstruct": everything else, singular values compared as a multiset).  Never
 	// generated; used by the known-finding replays so that each replay tracks exactly one defect.
@@ -43,11 +42,11 @@ func genMatCase(t *rapid.T, sizes []int, impls []string, symOK bool) matCase {
 	c.Tie = rapid.SampledFrom([]string{"none", "none", "spread", "spread", "pair", "all", "near"}).Draw(t, "tie")
 	order := rapid.Permutation([]int{0, 1, 2, 3}[:c.N]).Draw(t, "order")
 	for i := 0; i < c.N; i++ {
-		s := gen.LogF(t, sMin, sMax, "s")
+		s := LogF(t, sMin, sMax, "s")
 		if c.Tie == "spread" {
 			// one value per logarithmic band of [0.3, 3], kept off the band edges: separated by
 			// more than the cluster gap by construction
-			band := float64(order[i]) + gen.F(t, 0.1, 0.9, "band")
+			band := float64(order[i]) + F(t, 0.1, 0.9, "band")
 			s = sMin * math.Pow(sMax/sMin, band/float64(c.N))
 		}
 		if i > 0 {
@@ -56,7 +55,7 @@ func genMatCase(t *rapid.T, sizes []int, impls []string, symOK bool) matCase {
 			case c.Tie == "pair" && i == 1, c.Tie == "all":
 				s = s0
 			case c.Tie == "near" && i == 1:
-				s = s0 * (1 + gen.LogF(t, 1e-13, 1e-3, "rel"))
+				s = s0 * (1 + LogF(t, 1e-13, 1e-3, "rel"))
 			}
 		}
 		s = math.Min(sMax, math.Max(sMin, s))
@@ -79,7 +78,7 @@ func genMatCase(t *rapid.T, sizes []int, impls []string, symOK bool) matCase {
 		c.R = append(c.R, angleQ(t, generic(), "r"))
 	}
 	for i := 0; i < c.N; i++ {
-		c.W = append(c.W, gen.F(t, -4, 4, "w"))
+		c.W = append(c.W, F(t, -4, 4, "w"))
 	}
 	return c
 }
@@ -92,7 +91,7 @@ func genMatCase(t *rapid.T, sizes []int, impls []string, symOK bool) matCase {
 // rotations; with generic set the draw is passed through a bit mixer, which makes the angle
 // uniform over the grid (a deterministic function of the drawn integer).
 func angleQ(t *rapid.T, generic bool, label string) float64 {
-	k := rapid.IntRange(-(1 << 19), 1<<19).Draw(t, label)
+	k := rapid.IntRange(-(1<<19), 1<<19).Draw(t, label)
 	if generic {
 		v := uint64(k + (1 << 19))
 		v = (v ^ (v >> 30)) * 0xbf58476d1ce4e5b9
@@ -252,7 +251,7 @@ func checkInverse(c matCase, o *kit.Obs) error {
 	if e := maxDiffD(inplaceDet, want); !within("inverse/inplace-det", e, tol) {
 		return fmt.Errorf("InvertInPlaceDet(det) differs from the planted inverse by %g; M=%v", e, m.a)
 	}
-	if e := maxDiffV(col, wantCol); !within("inverse/mulcolumninv", e, 4*c3(c.N)*tol) {
+	if e := maxDiffV(col, wantCol); !within("inverse/mulcolumninv", e, 4*float64(c.N)*tol) {
 		return fmt.Errorf("MulColumnInv(w, det) = %v, want M^-1 w = %v", col, wantCol)
 	}
 	if maxDiffV(orig, m.a) != 0 {
@@ -260,8 +259,6 @@ func checkInverse(c matCase, o *kit.Obs) error {
 	}
 	return nil
 }
-
-func c3(n int) float64 { return float64(n) }
 
 // ---------------------------------------------------------------------------
 // singular value decomposition
@@ -433,15 +430,15 @@ func genLsq(t *rapid.T) lsqCase {
 	c := lsqCase{Core: genMatCase(t, []int{3}, []string{"numerical"}, false)}
 	n := rapid.IntRange(0, 12).Draw(t, "extra")
 	for i := 0; i < n; i++ {
-		c.Extra = append(c.Extra, [3]float64{gen.F(t, -1, 1, "ex"), gen.F(t, -1, 1, "ey"), gen.F(t, -1, 1, "ez")})
+		c.Extra = append(c.Extra, [3]float64{F(t, -1, 1, "ex"), F(t, -1, 1, "ey"), F(t, -1, 1, "ez")})
 	}
 	for i := 0; i < 3+n; i++ {
-		c.B = append(c.B, gen.F(t, -3, 3, "b"))
+		c.B = append(c.B, F(t, -3, 3, "b"))
 	}
 	if rapid.Bool().Draw(t, "reg") {
-		c.Lambda = gen.LogF(t, 1e-3, 10, "lambda")
+		c.Lambda = LogF(t, 1e-3, 10, "lambda")
 	}
-	c.Eps = gen.LogF(t, 1e-9, 1e-4, "eps")
+	c.Eps = LogF(t, 1e-9, 1e-4, "eps")
 	c.Rank2 = rapid.IntRange(0, 4).Draw(t, "rank2") == 0
 	return c
 }
